@@ -592,6 +592,19 @@ class C08(ClientProp):
         # end to end: operations change the simulated device, state queries on the same connection must report the device model's state
         return e2e_phase(ctx, lambda c: c.startswith("C08:"))
 
+    def extra_coverage(self, ctx):
+        cov = dict(super().extra_coverage(ctx))
+        if not ctx.quick:
+            # unbounded: the device model's counters stay within a day and agree with its power state for ANY timer, auto-shutdown
+            # value and passage of time (inductive invariant discharged with Apalache, spec/apalache/DeviceTimer.tla) - so every
+            # state the end-to-end model can reach has a state reply and a broadcast that render as HH:MM:SS
+            from .. import tlc
+            r = tlc.apalache_inductive(str(tlc.SPEC / "apalache" / "DeviceTimer.tla"), "Init", "IndInit", "IndInv",
+                                       ["PowerAndTimerAgree", "CountersWithinADay", "OffHasNotBeenOn"])
+            print(f"   Apalache: inductive invariant of the device timer discharged ({len(r['obligations'])} obligations, {r['wall_s']} s)", flush=True)
+            cov["inductive_invariant"] = r
+        return cov
+
     assumptions = ClientProp.base_assumptions + [
         "amps: either neighbouring tenth is accepted at an exact tie of watts/220",
         "thermostat replies with unknown mode / fan codes or a non-printable remote id are 'not well-formed' here and only "
